@@ -11,7 +11,7 @@ use serde_json::{json, Value};
 pub static DEF: PropDef = PropDef {
     id: "C09",
     title: "Encoding only appends",
-    rule: "Sequences of 1..6 values (G-val control messages, G-data messages, single AVPs incl. hidden ones) encoded one after the other into a writer that already holds a prefix of 0..300 octets. \
+    rule: "Sequences of 1..6 values (G-val control messages, G-data messages, single AVPs incl. hidden ones) encoded one after the other into a writer that already holds a prefix of 0..300 octets, or (1 case in 8) about 2^16 octets and beyond, where writer positions no longer fit 16 bits. \
 Oracle: (1) VecWriter{data: p} after the writes = p ++ encode_into_empty(v1) ++ .. ++ encode_into_empty(vk), checked after every value; (2) the same through MonWriter, a harness Writer that \
 records every write_bytes_at(offset, len) with the writer length at that moment: each overwrite must start at or after the first octet of the value being encoded, end within the octets written so far, \
 and an overwrite issued while an AVP is being encoded must lie inside that AVP; no overwrite may be out of range; MonWriter and VecWriter must end with identical octets. \
@@ -27,8 +27,8 @@ Non-trivial = non-empty prefix or k >= 2; distinct by hash of (prefix, encodings
 
 fn parts(t: Tier) -> Vec<Part> {
     let a = match t {
-        Tier::Quick => 300_000,
-        Tier::Thorough => 5_000_000,
+        Tier::Quick => 900_000,
+        Tier::Thorough => 10_000_000,
     };
     vec![tape("sequences", a, 2500)]
 }
@@ -59,13 +59,29 @@ fn describe(v: &Val) -> String {
 
 fn check(t: &mut Tape, cx: &mut Cx) -> Res {
     cx.eval();
-    let plen = match t.below(6) {
-        0 => 0,
-        1 => 1,
-        2 => 1 + t.below(300),
-        _ => t.below(24),
+    let prefix = match t.below(8) {
+        0 => Vec::new(),
+        1 => t.blob(1),
+        2 => {
+            let n = 1 + t.below(300);
+            t.blob(n)
+        }
+        // a writer that already holds about 2^16 octets or a multiple: positions no longer fit 16 bits
+        3 => {
+            let n = match t.below(4) {
+                0 => 65535 - t.below(30),
+                1 => 65536 + t.below(30),
+                2 => 65536 * (1 + t.below(3)) - t.below(1100),
+                _ => 65536 + t.below(200_000),
+            };
+            (0..n).map(|i| (i as u8) ^ 0xa7).collect()
+        }
+        _ => {
+            let n = t.below(24);
+            t.blob(n)
+        }
     };
-    let prefix = t.blob(plen);
+    let plen = prefix.len();
     let k = 1 + t.below(6);
     let vals: Vec<Val> = (0..k).map(|_| gen_val(t)).collect();
     let render = |i: usize| json!({"prefix": hex_short(&prefix), "values": vals.iter().map(describe).collect::<Vec<_>>(), "failing_value_index": i});
@@ -158,7 +174,8 @@ fn check(t: &mut Tape, cx: &mut Cx) -> Res {
     cx.class(match plen {
         0 => "prefix empty",
         1..=23 => "prefix 1..23 octets",
-        _ => "prefix >= 24 octets",
+        24..=400 => "prefix 24..400 octets",
+        _ => "prefix of about 2^16 octets or more",
     });
     cx.class(if k >= 2 { "sequence of >= 2 values" } else { "single value" });
     if plen > 0 || k >= 2 {
